@@ -170,12 +170,26 @@ func (d *drv) applyEdit(e edit) bool {
 		}
 		n := append([]rule{cur[1], cur[0]}, cur[2:]...)
 		d.be.setKernelChain(e.Chain, n, true)
-	case "restamp":
-		if !present || len(cur) < 1 || cur[0].H == "" || cur[0].H == staleHash {
+	case "restamp", "replace":
+		p := e.Pos
+		if p == 9 {
+			p = len(cur)
+		}
+		if !present || p < 1 || p > len(cur) {
 			return false
 		}
 		n := append([]rule{}, cur...)
-		n[0].H = "STALE"
+		if e.Kind == "restamp" {
+			if cur[p-1].H == "" || cur[p-1].H == staleHash {
+				return false
+			}
+			n[p-1].H = staleHash
+		} else {
+			n[p-1] = e.Rule
+		}
+		if len(uniq(n)) != len(n) {
+			return false
+		}
 		d.be.setKernelChain(e.Chain, n, true)
 	case "flush":
 		if !present || len(cur) == 0 {
